@@ -217,6 +217,15 @@ def gen_C03(rng, tier):
             for y in ["true", "false"]:
                 L.append("st and S@%d@%s S@%d@%s" % (t1, x, t2, y))
                 L.append("st or S@%d@%s S@%d@%s" % (t1, x, t2, y))
+    # device-level timestamps (terminal state averaging, inverter / gear train / axle / differential updates), incl. negative times
+    for l in subsample(rng, gen_devices(rng, "quick", with_cmds=True, with_states=True), n_of(tier, 250, 1500)):
+        L.append(l)
+    for (t1, t2) in TPAIRS[:8] + [(-5, -3), (-10 ** 9, -1)]:
+        for setup, nt in (("inv", 2), ("gear:40000000", 2), ("axle:3", 3), ("diff:EQ", 3), ("diff:SU", 3)):
+            ops = ["ss:0:%d@%s" % (t1, mkstate(rng)), "ss:1:%d@%s" % (t2, mkstate(rng))]
+            if nt == 3:
+                ops.append("ss:2:%d@%s" % (min(t1, t2), mkstate(rng)))
+            L.append("dv %s -- %s u:0 oa ra" % (setup, " ".join(ops)))
     # n-ary: every order pattern of up to 4 timestamps, some inputs absent
     for n in range(1, 5):
         for ts in itertools.product([-1, 0, 1, 2], repeat=n):
@@ -954,6 +963,10 @@ def oracle_C06(lines, impl):
             bad.append((c, "constructor returned t1,t2,t3 = %d,%d,%d not ordered" % (t1, t2, t3)))
             continue
         endcmd = toks[4]
+        want_end = lowest_nonzero_cmd(ct[2])
+        if endcmd != want_end and "nan" not in endcmd:
+            bad.append((c, "end command %s is not the end state's lowest non-zero derivative %s" % (endcmd, want_end)))
+            continue
         seq = sorted(zip(ts, toks[5:]))
         lastrank = -1
         for t, tk in seq:
@@ -1306,7 +1319,10 @@ def gen_C20(rng, tier):
         for _ in range(rng.randint(2, 32)):
             r = rng.random()
             t += rng.randint(1, 10 ** 6)
-            if r < 0.35: evs.append("gs:" + rng.choice([out_some(t, mkstate(rng)), out_some(t, mkstate(rng)), "N", "E1", "E2"]))
+            if r < 0.35:
+                # readings with increasing, repeated and EARLIER timestamps: the wrapper must write each present reading unchanged
+                tg = rng.choice([t, t, t - rng.randint(0, 10 ** 6), 5])
+                evs.append("gs:" + rng.choice([out_some(tg, mkstate(rng)), out_some(tg, mkstate(rng)), "N", "E1", "E2"]))
             elif r < 0.45: evs.append("iu:" + rng.choice(["ok", "ok", "E5"]))
             elif r < 0.52: evs.append("xs:" + datum_state(rng, t))
             elif r < 0.57: evs.append("xc:" + datum_cmd(rng, t))
@@ -1399,6 +1415,8 @@ def gen_C16(rng, tier):
                 if sp: ops.append("ss:1:%s" % datum_state(rng, 7))
                 L.append("dv free:2 -- %s" % " ".join(ops + ["ra"]))
     for n in range(0, 9):
+        for k in sorted(set([0, max(0, n - 1), n, n + 1, n + 7])):
+            L.append("dv axlegt %d %d" % (n, k))       # indexing a terminal: in range ok, out of range must panic
         L.append("dv axle:%d -- ra oa u:0 ra" % n)
         if n >= 1:
             L.append("dv axle:%d -- ss:%d:%s sc:%d:%s u:0 oa ra" % (n, n - 1, datum_state(rng, 3), 0, datum_cmd(rng, 4)))
@@ -1521,3 +1539,205 @@ def cross_C19(lines, outs):
 
 
 GENERATORS.update({"C19": gen_C19})
+
+
+# =========================================================================== property-conformant alternatives
+def accept_latest(case, impl, model):
+    """`st latest` / `d latest`: the property only says the result is one of the candidates and no candidate is strictly newer;
+    which of several equally new candidates is returned is not specified. Accept any such candidate (both reads equal)."""
+    t = case.split(" ")
+    if t[:2] == ["st", "latest"]:
+        ins = t[4:]
+        cands = [x for x in ins if x.startswith("S@")]
+        outs = impl.split(" ")
+        if len(outs) != 2 or outs[0] != outs[1]:
+            return False
+        if not cands:
+            return outs[0] == "N"
+        tmax = max(int(x.split("@")[1]) for x in cands)
+        return outs[0] in [x for x in cands if int(x.split("@")[1]) == tmax]
+    if t[:2] == ["d", "latest"]:
+        a, b = t[3], t[4]
+        ta, tb = int(a.split("@")[0]), int(b.split("@")[0])
+        ok = [x for x in (a, b) if int(x.split("@")[0]) == max(ta, tb)]
+        return impl in ok
+    return False
+
+
+# =========================================================================== observable scoping (projections)
+def _dv_project(case, line, part):
+    """`dv` output tokens `r:`=<state>;<cmd>;<td> and `o:`=<own state>;<own cmd>: keep only component `part`
+    (0 = state, 1 = command); other tokens (ok, -, PANIC) are kept."""
+    if not case.startswith("dv "):
+        return line
+    out = []
+    for tok in line.split(" "):
+        ps = tok.split(";")
+        if len(ps) in (2, 3):
+            out.append(ps[part])
+        else:
+            out.append(tok)
+    return " ".join(out)
+
+
+def project_states(case, line):      # C08, C16: the states only
+    return _dv_project(case, line, 0)
+
+
+def project_commands(case, line):    # C13: the commands only
+    return _dv_project(case, line, 1)
+
+
+def project_C06(case, line):
+    """motion profile, accessor AGREEMENT: keep the structure (piece, mode, which accessors are present, the history's time and
+    kind) and the end command; the numeric values and the phase durations t1,t2,t3 are owned by C07"""
+    if not case.startswith("mp ") or "PANIC" in line or line in ("NOIMPL", "BADLINE"):
+        return "REJECTED" if "PANIC" in line else line
+    toks = line.split(" ")
+    out = ["ACCEPTED", toks[4][:1] if len(toks) > 4 else "?"]     # accepted + kind of the end command
+    for tk in toks[5:]:
+        p = tk.split("/")
+        if len(p) != 6:
+            out.append(tk); continue
+        pres = lambda x: "none" if x == "none" else "some"
+        hist = p[5]
+        if hist != "none":
+            t, c = hist.split("@")
+            hist = t + "@" + c[:1]
+        out.append("/".join([p[0], p[1], pres(p[2]), pres(p[3]), pres(p[4]), hist]))
+    return " ".join(out)
+
+
+def project_C07(case, line):
+    """motion profile, trapezoid NUMBERS: the phase durations, the signed acceleration and the acceleration / velocity / position
+    values on the moving pieces; pieces, modes, the history and what happens before the start / after completion are C06's"""
+    if not case.startswith("mp ") or "PANIC" in line or line in ("NOIMPL", "BADLINE"):
+        return line
+    toks = line.split(" ")
+    out = toks[:4]
+    for tk in toks[5:]:
+        p = tk.split("/")
+        if len(p) != 6 or p[0] in ("BS", "CO"):
+            out.append("-")
+        else:
+            out.append("/".join(p[2:5]))
+    return " ".join(out)
+
+
+def line_mask_C12(c):
+    # what an error does to the window (reset) is C05's clause; C12 owns the averages themselves. On histories containing
+    # error events only categories, timestamps and the no-panic / range oracles are checked here.
+    if " E1" in c or " E2" in c:
+        return {"cat", "time", "unit"}
+    return {"cat", "time", "unit", "float"}
+
+
+def project_C20(case, line):
+    """wrappers: keep what is the wrapper's own doing (return values, whether the inner update ran, the own state slot written by
+    the encoder wrapper); what the terminal sees (C09) and the PID numerics (C11) are compared by the relay oracle instead"""
+    t = case.split(" ")
+    if t[:2] == ["wr", "act"]:
+        out = []
+        for tok in line.split(" "):
+            ps = tok.split(";")
+            out.append(";".join([ps[0], ps[2]]) if len(ps) == 4 else tok)
+        return " ".join(out)
+    if t[:2] == ["wr", "enc"]:
+        out = []
+        for tok in line.split(" "):
+            ps = tok.split(";")
+            out.append(";".join([ps[0], ps[1], ps[4]]) if len(ps) == 5 else tok)
+        return " ".join(out)
+    if t[:2] == ["wr", "pid"]:
+        out = []
+        for tok in line.split(" "):
+            ps = tok.split(";")
+            if len(ps) == 3:
+                out.append(ps[0] + ";" + ("-" if ps[1] == "-" else "v"))
+            elif len(tok) == 8 or tok in ("none", "nan"):
+                out.append("lr")
+            else:
+                out.append(tok)
+        return " ".join(out)
+    return line
+
+
+def oracle_C20(lines, impl):
+    """the relay clauses on the implementation's own outputs"""
+    bad = []
+    for c, o in zip(lines, impl):
+        t = c.split(" ")
+        if "PANIC" in o or o in ("NOIMPL", "BADLINE"):
+            if "PANIC" in o:
+                bad.append((c, "wrapper update panicked: " + o.split(" ")[-1]))
+            continue
+        toks = o.split(" ")
+        if t[:2] == ["wr", "act"]:
+            for tok in toks:
+                ps = tok.split(";")
+                if len(ps) != 4:
+                    continue
+                ret, got, _, seen = ps
+                if seen == "N":
+                    if got != "-":
+                        bad.append((c, "actuator wrapper handed over %s although its terminal sees nothing" % got)); break
+                elif got != "-":
+                    if got != seen.split("@", 2)[2]:
+                        bad.append((c, "actuator wrapper handed over %s but its terminal sees %s" % (got, seen))); break
+                elif ret == "ok":
+                    bad.append((c, "actuator wrapper handed over nothing although its terminal sees %s" % seen)); break
+        elif t[:2] == ["wr", "enc"]:
+            evs = t[2:]
+            gs, iu = "N", "ok"
+            for e, tok in zip(evs, toks):
+                if e.startswith("gs:"): gs = e[3:]
+                elif e.startswith("iu:"): iu = e[3:]
+                elif e == "upd":
+                    ps = tok.split(";")
+                    if len(ps) != 5:
+                        continue
+                    if iu == "ok" and gs.startswith("S@"):
+                        want = gs[2:]                      # <time>@<state>
+                        if ps[1] != want:
+                            bad.append((c, "encoder wrapper: terminal holds %s after the update, getter returned %s" % (ps[1], want))); break
+                    if ps[0] != "ok" and ps[0] not in (iu, gs):
+                        bad.append((c, "encoder wrapper returned %s, inner update says %s and inner get %s" % (ps[0], iu, gs))); break
+        elif t[:2] == ["wr", "pid"]:
+            for tok in toks:
+                ps = tok.split(";")
+                if len(ps) != 3:
+                    continue
+                ret, got, sa = ps
+                if got != "-":
+                    if not sa.startswith("S@") or got != sa.split("@")[2]:
+                        bad.append((c, "PID wrapper drove its motor with %s but a stand-alone CommandPID fed the same data gives %s" % (got, sa))); break
+                elif sa.startswith("S@") and ret == "ok":
+                    bad.append((c, "PID wrapper did not drive its motor although a stand-alone CommandPID gives %s" % sa)); break
+    return bad
+
+
+def lowest_nonzero_cmd(state_tok):
+    p, v, a = state_tok.split("/")
+    z = ("00000000", "80000000")
+    if a not in z and not (a[:3] in ("7fc", "ffc") or a == "nan"):
+        return "A" + a
+    if a in z:
+        if v in z:
+            return "P" + p
+        return "V" + v
+    return "A" + a
+
+
+def precompare_C06(case, impl, model):
+    """accessor agreement is judged relative to the profile's OWN phase boundaries: when implementation and model disagree on
+    t1,t2,t3 or on acceptance (both owned by C07), the piece at a given query time legitimately differs, so the structural
+    comparison with the model is skipped (drift) and only the oracle on the implementation's own outputs decides."""
+    if not case.startswith("mp "):
+        return None
+    if ("PANIC" in impl) != ("PANIC" in model):
+        return ("drift", "acceptance differs (owned by C07)")
+    if "PANIC" in impl:
+        return ("same", None)
+    if impl.split(" ")[:3] != model.split(" ")[:3]:
+        return ("drift", "phase boundaries differ (owned by C07)")
+    return None
